@@ -210,6 +210,17 @@ pub fn independent_tree_hash(nodes: &[Option<Node>], suite: u16) -> Vec<u8> {
     go(&cs, nodes, 0, 2 * n_leaves - 2)
 }
 
+/// key slots as a bit string without trailing zeros (`-` if none is set), as the Lean drivers print them
+fn bits_str(b: &[bool]) -> String {
+    let s: String = b.iter().map(|x| if *x { '1' } else { '0' }).collect();
+    let s = s.trim_end_matches('0').to_string();
+    if s.is_empty() {
+        "-".to_string()
+    } else {
+        s
+    }
+}
+
 fn name_of(n: usize) -> String {
     let c = (b'A' + (n % 26) as u8) as char;
     if n < 26 {
@@ -1311,35 +1322,75 @@ impl<'a, C: MlsConfig> Hist<'a, C> {
         }
     }
 
-    /// An outsider joins by an external commit built from a member's GroupInfo (RFC 9420 12.4.3.2): every member and every
-    /// observer processes it; the cached proposals of the epoch are dropped by everybody.  The tree-layer and group-model row
-    /// streams have no external-commit operation: the group-model stream of this history ends here, the incremental hash
-    /// rows restart.
+    /// An external commit built from a member's GroupInfo (RFC 9420 12.4.3.2): every member and every observer processes it; the
+    /// cached proposals of the epoch are dropped by everybody.  Two variants: an OUTSIDER joins (no proposal touches the tree), or
+    /// — RE-SYNC, about a third of the rounds — a current member whose state is taken as lost comes back with an external commit
+    /// that removes its own old leaf (`with_removal`; the identity provider's `valid_successor` must accept the pair of signing
+    /// identities), built by its old client or, as after a real loss, by a fresh client (new storage, new signature key) of
+    /// the same identity; its old group is kept as a retained group of a removed member (C02 oracles).  The composed group
+    /// model follows with a `g.external` row (then `g.classes` / `g.slots` as after `g.commit`); the tree-layer stream has no
+    /// external-commit operation: the incremental hash rows restart.
     pub fn external_round(&mut self) -> bool {
         let active = self.active();
-        if active.is_empty() || active.len() >= self.prof.max_members || self.prof.p_offend > 0 {
+        if active.is_empty() || self.prof.p_offend > 0 {
             return false;
         }
-        let outs = self.outsiders();
-        let x = if let Some(&x) = outs.first() { x } else if self.w.members.len() < self.prof.max_members + 4 { self.new_member() } else { return false };
-        let a = *self.rng.pick(&active);
+        let resync = active.len() >= 2 && self.rng.chance(1, 3);
+        if !resync && active.len() >= self.prof.max_members {
+            return false;
+        }
+        // x: the external committer; a: the member whose GroupInfo it uses (in a re-sync x's own state is lost, so somebody else)
+        let (x, a) = if resync {
+            let x = *self.rng.pick(&active);
+            let others: Vec<usize> = active.iter().copied().filter(|&i| i != x).collect();
+            (x, *self.rng.pick(&others))
+        } else {
+            let outs = self.outsiders();
+            let x = if let Some(&x) = outs.first() { x } else if self.w.members.len() < self.prof.max_members + 4 { self.new_member() } else { return false };
+            (x, *self.rng.pick(&active))
+        };
+        let old_leaf: Option<u32> = if resync { Some(self.leaf_of(x)) } else { None };
+        let gi_leaf = self.leaf_of(a);
         let epoch = self.w.group(a).current_epoch();
         let with_tree = !self.w.members[a].setup.tree_ext;
         let Ok(gi) = self.w.group(a).group_info_message_allowing_ext_commit(!with_tree || self.rng.chance(1, 2)) else { return false };
         let tree_bytes = self.w.exported_tree_bytes(a);
         let xname = self.w.members[x].setup.name.clone();
-        let has_tree_ext = gi.to_bytes().map(|b| b.len()).unwrap_or(0) > 0 && self.w.group(a).group_info_message_allowing_ext_commit(true).is_ok();
-        let _ = has_tree_ext;
+        // a re-sync by a fresh client: the storage went with the state (a storage that still holds earlier epochs of the group
+        // would run into known finding F14 at the next write), new signature key under the same identity
+        let fresh: Option<(Handles, Client<C>)> = if resync && (self.w.members[x].wrote || self.rng.chance(1, 2)) {
+            let s = self.w.members[x].setup.clone();
+            let h = handles(&s, &self.w.crypto_log, &self.w.scratch);
+            let (id, sk) = make_identity(&s.name, s.suite);
+            for (id, val) in &self.w.psks {
+                h.psk.inner.lock().unwrap().insert(ext_psk_id(id), psk_value(val));
+            }
+            h.idp.rejected.lock().unwrap().extend(self.w.rejected.iter().cloned());
+            let client = (self.mk)(&s, &h, id, sk);
+            Some((h, client))
+        } else {
+            None
+        };
+        let what = match (old_leaf, &fresh) {
+            (Some(l), Some(_)) => format!("external commit {xname} resync rm={l} client=fresh gi={gi_leaf}"),
+            (Some(l), None) => format!("external commit {xname} resync rm={l} client=same gi={gi_leaf}"),
+            _ => format!("external commit {xname}"),
+        };
         let r = std::panic::catch_unwind(std::panic::AssertUnwindSafe(|| {
-            let b = self.w.members[x].client.external_commit_builder()?;
+            let client = fresh.as_ref().map(|(_, c)| c).unwrap_or(&self.w.members[x].client);
+            let b = client.external_commit_builder()?;
             let b = b.with_tree_data(tree_of(&tree_bytes));
+            let b = match old_leaf {
+                Some(l) => b.with_removal(l),
+                None => b,
+            };
             b.build(gi)
         }));
         let (g, cm) = match r {
             Ok(Ok(v)) => v,
             Ok(Err(e)) => {
-                self.w.log(format!("external commit {xname} -> err:{}", err_class(&e)));
-                self.fail("C07", format!("{xname} cannot build an external commit from a current GroupInfo: {}", err_class(&e)));
+                self.w.log(format!("{what} -> err:{}", err_class(&e)));
+                self.fail("C07", format!("{xname} cannot build an external commit{} from a current GroupInfo: {}", if resync { " (re-sync)" } else { "" }, err_class(&e)));
                 return false;
             }
             Err(_) => {
@@ -1347,17 +1398,47 @@ impl<'a, C: MlsConfig> Hist<'a, C> {
                 return false;
             }
         };
-        self.w.log(format!("external commit {xname} -> ok"));
+        self.w.log(format!("{what} -> ok"));
         self.rep.op("external-commit", &Res::Ok);
-        let cmi = self.w.push_msg("commit", &xname, epoch, cm, "external commit");
+        let cmi = self.w.push_msg("commit", &xname, epoch, cm, if resync { "external commit (re-sync)" } else { "external commit" });
+        if resync {
+            // the lost state: kept like the retained group of a removed member (it must refuse everything from here on)
+            if let Some(old) = self.w.members[x].group.take() {
+                self.w.members[x].ghosts.push(old);
+            }
+            self.rep.op("external-commit-resync", &Res::Ok);
+            self.rep.cover.insert("external-commit-resync".into());
+            self.rep.cover.insert(format!("external-commit-resync:client={}", if fresh.is_some() { "fresh" } else { "same" }));
+        }
+        if let Some((h, client)) = fresh {
+            self.w.members[x].h = h;
+            self.w.members[x].client = client;
+            self.w.members[x].wrote = false;
+        }
         self.w.members[x].group = Some(g);
         for &i in &active {
+            if i == x {
+                continue;
+            }
             let (r, o) = self.deliver(i, cmi);
             let n = self.w.members[i].setup.name.clone();
             match o {
                 Some(ReceivedMessage::Commit(d)) if matches!(d.effect, CommitEffect::NewEpoch(_)) => {
                     if !d.is_external {
                         self.fail("C07", format!("{n} does not report m{cmi} as an external commit"));
+                    }
+                    if let CommitEffect::NewEpoch(ne) = &d.effect {
+                        let removes: Vec<u32> = ne
+                            .applied_proposals
+                            .iter()
+                            .filter_map(|p| match &p.proposal {
+                                mls_rs::group::proposal::Proposal::Remove(r) => Some(r.to_remove()),
+                                _ => None,
+                            })
+                            .collect();
+                        if removes != old_leaf.into_iter().collect::<Vec<u32>>() {
+                            self.fail("C07", format!("{n} reports the removals {removes:?} for the external commit m{cmi} of {xname}, which removes {old_leaf:?}"));
+                        }
                     }
                 }
                 _ => self.fail("C07", format!("{n} rejected the external commit m{cmi} of {xname}: {}", r.s())),
@@ -1378,8 +1459,37 @@ impl<'a, C: MlsConfig> Hist<'a, C> {
             self.fail("C01", format!("after the external commit m{cmi}: {e}"));
         }
         self.ghost_oracle(cmi);
-        // the model streams that replay every commit cannot follow an external commit
-        self.w.group_rows.clear();
+        // composed group model (Model.Group, `externalCommit`): `gi` = the leaf of the member whose GroupInfo was used, `rm` = the
+        // removed leaf of a re-sync, `newleaf` = the committer's leaf node in the new tree, `deliver` = the (unchanged) leaves of
+        // the old members that are in the new epoch now; answer: the new tree (parent keys renamed) and the committer's leaf
+        if !self.w.group_rows.is_empty() {
+            let new_epoch = self.w.group(x).current_epoch();
+            let self_leaf = self.leaf_of(x);
+            let tree_after = self.w.anodes(x);
+            let mut deliver: Vec<u32> = active.iter().filter(|&&i| i != x && self.w.group(i).current_epoch() == new_epoch).map(|&i| self.leaf_of(i)).collect();
+            deliver.sort();
+            let new_leaf_str = match tree_after.get(2 * self_leaf as usize) {
+                Some(ANode::Leaf { ident, hpke, sig }) => {
+                    self.w.group_known.extend([*ident, *hpke, *sig]);
+                    format!("{ident}:{hpke}:{sig}")
+                }
+                _ => {
+                    self.fail("C07", format!("the leaf {self_leaf} of the external committer {xname} is blank in its own tree after m{cmi}"));
+                    "-".into()
+                }
+            };
+            let q = format!(
+                "g.external gi={} rm={} newleaf={} deliver={}",
+                gi_leaf,
+                old_leaf.map(|l| l.to_string()).unwrap_or_else(|| "-".into()),
+                new_leaf_str,
+                list_u32(&deliver)
+            );
+            let known_g = self.w.group_known.clone();
+            self.w.group_rows.push((q, format!("{} self={}", tree_str(&canon_tree(&tree_after, &known_g)), self_leaf)));
+            self.push_classes_and_slots(&now);
+        }
+        // the tree-layer streams that replay every commit cannot follow an external commit
         self.w.hash_caches.clear();
         self.w.ph_layers.clear();
         if let Some(t) = self.tap.as_deref_mut() {
@@ -1478,6 +1588,37 @@ impl<'a, C: MlsConfig> Hist<'a, C> {
                 }
                 *self.rep.ops.entry("ghost-deliver".into()).or_default() += 1;
             }
+        }
+    }
+
+    /// Composed group model rows after a commit row (`g.commit` / `g.external`): `g.classes` — the partition of all parties that
+    /// ever were in the group (current members; for a party that is out, its last retained group) by their epoch secret, here by
+    /// the epoch authenticator, every party named by its identity stamp — and one `g.slots` row per member of the new epoch.
+    pub fn push_classes_and_slots(&mut self, now: &[usize]) {
+        let mut by_secret: BTreeMap<Vec<u8>, Vec<usize>> = BTreeMap::new();
+        for i in 0..self.w.members.len() {
+            let g = match (&self.w.members[i].group, self.w.members[i].ghosts.last()) {
+                (Some(g), _) => g,
+                (None, Some(g)) => g,
+                _ => continue,
+            };
+            let Ok(auth) = g.epoch_authenticator() else { continue };
+            let idb = self.w.members[i].identity.clone();
+            let st = self.w.stamps.of(&idb);
+            by_secret.entry(auth.as_bytes().to_vec()).or_default().push(st);
+        }
+        let mut classes: Vec<Vec<usize>> = by_secret.into_values().collect();
+        for cl in classes.iter_mut() {
+            cl.sort();
+        }
+        classes.sort_by_key(|cl| cl[0]);
+        let cls = classes.iter().map(|cl| cl.iter().map(|x| x.to_string()).collect::<Vec<_>>().join(",")).collect::<Vec<_>>().join("|");
+        self.w.group_rows.push(("g.classes".into(), if cls.is_empty() { "-".into() } else { cls }));
+        for &i in now {
+            let (_, b) = self.w.priv_bits(i);
+            let idb = self.w.members[i].identity.clone();
+            let st = self.w.stamps.of(&idb);
+            self.w.group_rows.push((format!("g.slots {st}"), bits_str(&b)));
         }
     }
 
@@ -1768,32 +1909,7 @@ impl<'a, C: MlsConfig> Hist<'a, C> {
             );
             let known_g = self.w.group_known.clone();
             self.w.group_rows.push((q, format!("{} added={}", tree_str(&canon_tree(&tree_after, &known_g)), list_u32(&added_leaves))));
-            // partition of the parties by epoch secret
-            let mut by_secret: BTreeMap<Vec<u8>, Vec<usize>> = BTreeMap::new();
-            for i in 0..self.w.members.len() {
-                let g = match (&self.w.members[i].group, self.w.members[i].ghosts.last()) {
-                    (Some(g), _) => g,
-                    (None, Some(g)) => g,
-                    _ => continue,
-                };
-                let Ok(auth) = g.epoch_authenticator() else { continue };
-                let idb = self.w.members[i].identity.clone();
-                let st = self.w.stamps.of(&idb);
-                by_secret.entry(auth.as_bytes().to_vec()).or_default().push(st);
-            }
-            let mut classes: Vec<Vec<usize>> = by_secret.into_values().collect();
-            for cl in classes.iter_mut() {
-                cl.sort();
-            }
-            classes.sort_by_key(|cl| cl[0]);
-            let cls = classes.iter().map(|cl| cl.iter().map(|x| x.to_string()).collect::<Vec<_>>().join(",")).collect::<Vec<_>>().join("|");
-            self.w.group_rows.push(("g.classes".into(), if cls.is_empty() { "-".into() } else { cls }));
-            for &i in &now {
-                let (_, b) = self.w.priv_bits(i);
-                let idb = self.w.members[i].identity.clone();
-                let st = self.w.stamps.of(&idb);
-                self.w.group_rows.push((format!("g.slots {st}"), bits(&b)));
-            }
+            self.push_classes_and_slots(&now);
         }
         let all_added = joiner_leaves.len() == edits.add.len();
         for &i in &now {
@@ -1971,7 +2087,7 @@ pub fn run_histories(o: &Opts, prof: Profile, n: u64, stem: &str, focus: &[&'sta
     for h in 0..n {
         let hseed = seedgen.next();
         let log: SharedCryptoLog = Default::default();
-        let w = new_world(log, "/tmp/vharness-scratch");
+        let w = new_world(log, &crate::util::scratch("hist"));
         let mk = |s: &Setup, hd: &Handles, id, sk| mk_client(s, hd, id, sk);
         let mut hprof = prof.clone();
         hprof.suite = hprof.suites[(h as usize) % hprof.suites.len()];
@@ -2028,7 +2144,7 @@ pub fn run_histories(o: &Opts, prof: Profile, n: u64, stem: &str, focus: &[&'sta
     qa.finish();
     fqa.finish();
     gqa.finish();
-    let _ = std::fs::remove_dir_all("/tmp/vharness-scratch");
+    let _ = std::fs::remove_dir_all(&crate::util::scratch("hist"));
     (total, failing_logs)
 }
 
